@@ -8,6 +8,15 @@ Streams
   D  Datum.to_units over unit pairs and float / Decimal / array payloads
   E  Datum validation (must_be_numerical) kinds
   K  key set and order of both tables (translator cross-check)
+  F  the unit factor itself: constants.conversion_factor for all 25 ordered pairs of {bohr, angstrom, pm, nm, m}
+     against (i) the oracle's own exact rational (bohr radius re-read from the context's CODATA data file,
+     exact decimal scales) and (ii) the Lean model's exact rational (C03's SI model over the regenerated CODATA
+     table) — equal rationals demanded, the implementation's double within 2^-50 relative of them
+  G  `get` against the Lean model with the DERIVED factor (driver op getfull: nothing numeric handed over):
+     exact equality wherever the implementation's double is the correctly rounded factor, else the proved bound
+  T  Datum.to_units against the derived-factor model (driver op toufull), same rule; plus, on every D case,
+     repeated to_units calls on the same Datum with the payload compared before / after each call (arrays:
+     also after modifying a returned array in place)
   S  call sequences: each sequence runs in its own pristine fork of this process (taken before the
      first lookup).  Non-lookup calls — write_c_header (both sets, live singleton / newly constructed /
      deepcopy / shallow copy, default and explicit filler), string_representation, str/repr,
@@ -39,7 +48,9 @@ import gen_periodic  # noqa: E402
 import gen_radii  # noqa: E402
 
 PROPERTY = "C17"
-LEAN_TARGETS = ["QcelVerif.Props.C17", "QcelVerif.Props.C17Units", "QcelVerif.Props.C17Session", "QcelVerif.Driver.C17"]
+LEAN_TARGETS = ["QcelVerif.Props.C17", "QcelVerif.Props.C17Units", "QcelVerif.Props.C17Session",
+                "QcelVerif.Model.RadiiFactor", "QcelVerif.Props.C17Factor", "QcelVerif.Props.C17FactorC02",
+                "QcelVerif.Props.C17FactorText", "QcelVerif.Props.C17ToUnits", "QcelVerif.Driver.C17"]
 DRIVER = "QcelVerif/Driver/C17.lean"
 THEOREMS = [
     ("QcelVerif.Radii.radius_alias_invariant", "ANY periodic table, ANY radius table: if to_E(a) = E and a is not itself a different exact label, get(a, ...) = lookup-by-key(E, ...) for every return_tuple/missing/unit factor"),
@@ -69,24 +80,90 @@ THEOREMS = [
     ("QcelVerif.Radii.replies_history_free", "every reply of a session equals the reply of that call alone on the loaded table: order, repetition and earlier options cannot matter"),
     ("QcelVerif.Radii.header_filler_iff_untabulated", "write_c_header prints the caller's filler for an element exactly when it has no entry (and prints the stored Datum otherwise)"),
     ("QcelVerif.Radii.missing_contract_after_header", "ANY tables: after a header write with ANY filler an untabulated identifier still raises DataUnavailable / returns the caller's own fallback, never the filler"),
+    # ---- the unit factor derived from the CODATA set (Props/C17Factor.lean, C17FactorC02.lean, C17FactorText.lean)
+    ("QcelVerif.Radii.factor_is_si_ratio", "ANY CODATA set: conversion_factor(s, d) of C03's SI model (Units.conv on the unit expressions) is the exact rational mag(s)/mag(d) for all 25 ordered pairs of {bohr, angstrom, pm, nm, m}, never an error"),
+    ("QcelVerif.Radii.default_is_bohr_full", "ANY tables, ANY CODATA set: for an entry stored in angstrom the default result is fl(rnd(1/(a0*10^10)) * float(tabulated decimal)), and conv(angstrom, bohr) = 1/(a0*10^10) exactly, a0 = the set's 'bohr radius'"),
+    ("QcelVerif.Radii.shipped_entries_angstrom_decimal", "every stored Datum of both shipped sets is a Decimal in angstrom [decide +kernel]"),
+    ("QcelVerif.Radii.shipped_default_is_bohr_full", "shipped tables, both sets, every argument identifying a tabulated entry: the default result is fl(rnd(1/(a0*10^10)) * float(tabulated decimal)) with nothing taken from the implementation"),
+    ("QcelVerif.Radii.native_unit_exact_full", "a0 != 0: the derived factor of a unit to itself is exactly 1, as a rational and as the model's double, for all five units"),
+    ("QcelVerif.Radii.native_get_full", "ANY tables: asking for the unit the entry is stored in returns float(tabulated Decimal) itself (derived factor)"),
+    ("QcelVerif.Radii.units_linear_full", "before rounding the factors from angstrom are the exact rationals 1 (angstrom), 100 (pm), 1/10 (nm), 10^-10 (m), 1/(a0*10^10) (bohr), and bohr->angstrom is a0*10^10"),
+    ("QcelVerif.Radii.factor_chain", "a0 != 0: factor(s,d) * factor(d,e) = factor(s,e) exactly for all 125 triples of the five units"),
+    ("QcelVerif.Radii.factor_swap", "a0 != 0: factor(s,d) * factor(d,s) = 1 exactly for all 25 pairs"),
+    ("QcelVerif.Radii.convModel_is_convImpl", "positive CODATA set: C03's model of the CODE path (convImpl: pint container arithmetic + context graph) returns the same exact rational as the SI model on the five units"),
+    ("QcelVerif.Radii.factor_tolerance_accuracy", "for EVERY exact factor q, double f with |f-q| <= eps|q| and decimal v: |fl(f * float(v)) - q*v| <= ((1+eps)(1+u)^2 - 1)|q*v|, u = 2^-53"),
+    ("QcelVerif.Radii.full_value_accuracy", "the derived-factor result fl(rnd(q) * float(v)) is within (1+u)^3 - 1 (three roundings) of the exact rational q*v"),
+    ("QcelVerif.Radii.withinTol_iff", "the driver's tolerance test withinTol f q is exactly |f - q| <= 2^-50 |q|"),
+    ("QcelVerif.Radii.impl_factor_value_accuracy", "if the implementation's double passes withinTol against the exact factor q, the radius fl(f * float(v)) is within (1+2^-50)(1+u)^2 - 1 < 11u of q*v (what the per-run factor check buys)"),
+    ("QcelVerif.Radii.rnd64_within_tol", "the correctly rounded factor always passes the tolerance test"),
+    ("QcelVerif.Radii.getFull_eq_of_factor_eq", "ANY tables: get with ANY factor map that agrees with the derived double on (entry unit, requested unit) equals the derived-factor get (licenses demanding exact equality where the implementation's double is the correctly rounded factor)"),
+    ("QcelVerif.Radii.bohr2angstroms_is_a0_2014", "regenerated 2014 tables of BOTH translators: the Decimal C02's context model stores under the alias 'bohr2angstroms' is exactly a0*10^10 of C03's unit table, its 'bohr radius' is a0, both positive [decide +kernel]"),
+    ("QcelVerif.Radii.bohr2angstroms_is_a0_2018", "same for the 2018 tables [decide +kernel]"),
+    ("QcelVerif.Radii.default_factor_is_inverse_bohr2angstroms_2014", "CODATA2014 (the context the radii use): conv(angstrom, bohr) = 1/bohr2angstroms exactly, bohr->angstrom = bohr2angstroms, the model's double is rnd(1/bohr2angstroms); bohr2angstroms = the context's alias of that name (bohr radius * 1.E10)"),
+    ("QcelVerif.Radii.default_factor_is_inverse_bohr2angstroms_2018", "same for CODATA2018"),
+    ("QcelVerif.Radii.shipped_default_over_bohr2angstroms_2014", "END TO END, shipped tables + CODATA2014: there is b > 0, the Decimal under the context's alias bohr2angstroms, such that for both sets and every argument identifying a tabulated entry the default result is fl(rnd(1/b) * float(tabulated angstrom decimal))"),
+    ("QcelVerif.Radii.shipped_default_over_bohr2angstroms_2018", "same over the 2018 tables"),
+    ("QcelVerif.Radii.unit_texts_parse", "C03's model of pint's string front end over the regenerated registry name set reads each of the texts 'bohr', 'angstrom', 'pm', 'nm', 'm' (as pint evaluates it and as it is meant) as exactly the unit expression the factor model uses [decide +kernel]"),
+    ("QcelVerif.Radii.factor_of_texts", "positive CODATA set: conversion_factor(src_text, dst_text) of C03's code model on STRINGS equals the exact SI ratio for all 25 pairs of the five texts"),
+    # ---- Datum.to_units (Props/C17ToUnits.lean)
+    ("QcelVerif.Radii.to_units_value", "ANY factor map: to_units is fl(f * float(Decimal)) for a Decimal payload, fl(f * x) for a float, elementwise fl(f * x_i) for an array"),
+    ("QcelVerif.Radii.to_units_array_elementwise", "an array payload converts element by element: element i is what the same Datum with the float payload x_i converts to; the length is kept"),
+    ("QcelVerif.Radii.to_units_default_is_own_unit", "to_units() without argument is to_units(self.units)"),
+    ("QcelVerif.Radii.to_units_same_unit", "derived factor, a0 != 0: converting to the Datum's own unit (explicitly or by default) returns float(Decimal) / the float / the array of doubles itself"),
+    ("QcelVerif.Radii.to_units_accuracy", "every converted float / array element is within u of f*x, and within (1+eps)(1+u) - 1 of the exact linear map q*x when |f-q| <= eps|q|"),
+    ("QcelVerif.Radii.to_units_decimal_accuracy", "same for a Decimal payload with the additional float(Decimal) rounding: (1+eps)(1+u)^2 - 1"),
+    ("QcelVerif.Radii.to_units_homogeneous_pow2", "scaling the payload (float, or every array element) by 2^k scales the converted result by exactly 2^k"),
+    ("QcelVerif.Radii.to_units_preserves_datum", "value semantics of the model: after ANY sequence of to_units calls the Datum (label, units, payload, comment, doi) is unchanged"),
+    ("QcelVerif.Radii.to_units_replies_history_free", "every reply of a sequence of to_units calls equals that call alone on the original Datum"),
+    ("QcelVerif.Radii.to_units_repeatable", "the same to_units call repeated n times gives the same answer n times"),
 ]
-TRANSLATORS = [gen_periodic.main, gen_radii.main]
+
+
+def gen_units_codata_c03(ctx):
+    """C03's translator (harness/c03.py, imported read-only): qcelemental/data/nist_201{4,8}_codata.py ->
+    lean/QcelVerif/Gen/UnitsCodata.lean (exact rationals of the constants the unit model needs; `a0` = 'bohr radius')."""
+    import c03
+
+    c03.gen_units_codata(ctx)
+
+
+def gen_unit_names_c03(ctx):
+    """C03's translator of the live registry's name set -> lean/QcelVerif/Gen/UnitNames.lean (builds two fresh
+    PhysicalConstantsContext objects and their pint registries; makes no radius lookup)."""
+    import c03
+
+    c03.gen_unit_names(ctx)
+
+
+def gen_codata_c02(ctx):
+    """C02's translator (tools/gen_codata.py): the shipped CODATA tables -> lean/QcelVerif/Gen/Codata201{4,8}.lean."""
+    import gen_codata
+
+    gen_codata.main(ctx)
+
+
+TRANSLATORS = [gen_periodic.main, gen_radii.main, gen_units_codata_c03, gen_codata_c02, gen_unit_names_c03]
 TRUSTED_BASE = [
     "Lean 4.33 kernel (decide +kernel over the generated radius tables and C01's generated periodic table); axioms audited per theorem",
     "tools/gen_radii.py and tools/gen_periodic.py: re-encode the data files as byte lists / packed naturals without normalisation; cross-checked by the exhaustive correspondence (keys, every Datum field, every value)",
     "hand-written models Model/Radii.lean (covalent_radii.py:42-141, vanderwaals_radii.py:41-125, datum.py:51-105) and C01's Model/PeriodicTable.lean, tied by exhaustive differential correspondence",
     "Model/RadiiF64.lean: doubles as exact rationals, `rnd64` = round-to-nearest-even to 53 bits (exponent range not modelled); checked bit-for-bit against CPython on every value of every run",
-    "the unit factor is a PARAMETER of the model: constants.conversion_factor (pint; C03's territory) is called once per unit pair on the implementation and its double is handed to the model; the oracle separately bounds it against exact decimal scales (pm 100, nm 1/10, m 1e-10, bohr 1/bohr2angstroms) to 1e-14 relative",
+    "the unit factor: the EXACT factor of every pair of {bohr, angstrom, pm, nm, m} is now derived in Lean — C03's SI model (Model/Units.lean, Units.conv; imported read-only) over the CODATA table regenerated by C03's translator (harness/c03.py:gen_units_codata, called from C17's TRANSLATORS), proved equal to 1/bohr2angstroms of C02's context model over C02's regenerated table (tools/gen_codata.py, also called here), and the five unit TEXTS are proved to read as those unit expressions by C03's model of pint's string front end over the regenerated registry name set (harness/c03.py:gen_unit_names). The model's double is rnd64 of the exact rational",
+    "STILL A CHECKED PARAMETER: pint's float evaluation of the factor (a handful of roundings; e.g. angstrom->nm comes out as 0.09999999999999999, 0.6 ulp off) is not modelled. On every run the implementation's double for all 25 unit pairs is compared with the model's exact rational AND with the oracle's own exact rational at the stated tolerance |f - q| <= 2^-50 |q| (4 machine epsilons; measured maximum on this platform 1.0 ulp on the default context); Lean proves what that tolerance implies for the returned radius (impl_factor_value_accuracy: < 11u relative). The existing correspondence (the implementation's double handed to the model as a parameter, result compared bit for bit) and the oracle's 1e-14 bounds are kept; in addition the implementation's results are compared with the derived-factor model (driver ops getfull / toufull) — exactly where the implementation's double is the correctly rounded factor (angstrom->bohr, pm, m, identity here), within the proved bound otherwise (nm)",
+    "that pint + ureg.py + context.py implement C03's unit model in general remains C03's differential tie; C17 checks it for the five units of its quantifier only",
+    "hand-written Model/RadiiFactor.lean: which unit expression each of the five texts denotes (proved against C03's front-end model, unit_texts_parse), to_units' choice of target unit (datum.py:99), and the Datum-as-state model of repeated to_units calls (to_units has no assignment to self); the aliasing side — whether a returned ndarray shares memory with the stored payload — is NOT expressible in the model and is differential: stream D compares the payload before and after every call of a sequence of to_units calls and after in-place modification of a returned array",
     "CPython float(Decimal) and int/int true division assumed correctly rounded (the former re-checked against the exact decimal on every value)",
     "the oracle's own re-reading of the two data files and of the periodic table arrays",
     "Model/RadiiSession.lean: the public non-lookup methods are modelled as returning the table they were given (no assignment to self.cr / self.vdwr or to a stored Datum exists in covalent_radii.py:73-186, vanderwaals_radii.py:59-170); tied by the call-sequence stream, whose lookups after arbitrary call histories are compared with the stateless model",
-    "call sequences run in os.fork() images of the harness process taken before its first lookup (import of qcelemental done, nothing called); a recorded sequence is replayed in-process by a fresh `./check --replay` process",
+    "call sequences run in os.fork() images of the harness process taken before its first lookup (import of qcelemental done; the registry-name translator has built two fresh PhysicalConstantsContext objects and their pint registries; no radius object has been called); a recorded sequence is replayed in-process by a fresh `./check --replay` process, which runs the same translators first",
 ]
 ASSUMPTIONS = [
     "atom is an int or an ASCII str (documented Union[int, str]); return_tuple is a bool; missing is None or a finite float",
     "units in {bohr, angstrom, pm, nm, m} or omitted; other pint expressions are C03's",
     "results are in the normal binary64 range (no overflow/subnormals), true of all radii in all five units",
     "Datum payloads: finite float, finite Decimal, 1-d float64 array",
+    "the CODATA set of the factor model is the one named by qcelemental.constants.name (CODATA2014 as shipped; CODATA2018 is also generated and proved); any other context name is a harness error, not a finding",
+    "a caller modifying a returned ndarray in place is part of stream D only to detect shared memory with the stored payload (the Datum must still hold its value afterwards); Datum payloads that are not arrays are immutable Python objects",
     "call sequences consist of public calls only (get, write_c_header, string_representation, str/repr, construction / copy / deepcopy of a radius set, reading methods of a returned Datum, molutil.guess_connectivity, periodic_table.write_c_header, constants.string_representation, physical_constants write_c_header); a caller assigning into the public dicts `cr` / `vdwr` or forcing attributes of a frozen Datum is outside; the content of the written headers/listings is not C17's subject (only what the calls leave behind is)",
     "a secondary instance of a radius set (constructed with the same context name, or copied from the singleton) is held to the same clauses as the singleton",
 ]
@@ -108,15 +185,29 @@ RULE = (
 LEVEL_TEXT = (
     "proof about the model for all inputs (alias invariance, missing/not-element contract, unit algebra as exact rounding identities) "
     "plus kernel evaluation of the whole generated tables; the model is tied to the code by exhaustive correspondence over the "
-    "periodic table x alias forms x units; the unit factor itself is taken from the implementation (partial: C03 owns it); "
+    "periodic table x alias forms x units; the unit factor is no longer taken from the implementation: its exact value for every pair of "
+    "{bohr, angstrom, pm, nm, m} is derived in Lean from C03's SI unit model over the CODATA table regenerated from the source, proved equal to "
+    "1/bohr2angstroms of C02's context model (default unit), exactly 1 (native unit) and the exact decimal scales 100, 1/10, 1e-10 (pm, nm, m), the "
+    "unit texts are proved to denote those expressions under C03's model of pint's parser, and the model's double is the correctly rounded rational; "
+    "partial in one stated respect: pint's float evaluation of the factor is not modelled — the implementation's double is a per-run checked "
+    "parameter (within 2^-50 relative of the exact rational, all 25 pairs), with the consequence for the radius proved (< 11u); that pint implements "
+    "the unit model beyond these five units is C03's tie. Datum.to_units is modelled with the same factor (elementwise linear up to the stated "
+    "roundings, exact for powers of two; the Datum is unchanged by any sequence of calls — value semantics in the model, shared-memory aliasing checked "
+    "differentially); "
     "independence of a lookup from the calls made before it is a theorem of the session model and is tied to the code by sampled call "
     "sequences over all public entry points of the radius objects (sampled, not exhaustive: orders and options are drawn from VERIF_SEED)"
 )
-TECHNIQUE = "Lean 4 proof (structural + decide +kernel over generated tables) + translator + exhaustive differential correspondence + independent oracle"
+TECHNIQUE = ("Lean 4 proof (structural + field/rounding algebra + decide +kernel over generated tables) + translators (radii, periodic table, "
+             "CODATA for the unit model and for the constants context, registry name set) + exhaustive differential correspondence + independent oracle")
 
 UNITS = ["bohr", "angstrom", "pm", "nm", "m"]
 EXACT_SCALE = {"angstrom": Fraction(1), "pm": Fraction(100), "nm": Fraction(1, 10), "m": Fraction(1, 10**10)}
 SETS = ("c", "v")
+TOL_FACTOR = Fraction(1, 2**50)    # implementation's double vs the exact factor: |f - q| <= 2^-50 |q|  (Radii.withinTol)
+U53 = Fraction(1, 2**53)
+# proved consequences (Props/C17Factor.lean): radius vs exact q*v when the factor passed the tolerance / for a float payload
+BOUND_DEC = (1 + TOL_FACTOR) * (1 + U53) ** 2 - 1      # impl_factor_value_accuracy
+BOUND_FLT = (1 + TOL_FACTOR) * (1 + U53) - 1           # to_units_accuracy
 
 
 # ---------------------------------------------------------------------------------------
@@ -174,6 +265,10 @@ class Impl:
         self._f = {}
         self._cf = {}
         self.ref = {}
+        name = str(constants.name)
+        if name not in ("CODATA2014", "CODATA2018"):
+            raise RuntimeError(f"qcelemental.constants is the context {name!r}; the factor model knows CODATA2014 and CODATA2018")
+        self.year = int(name.replace("CODATA", ""))
 
     def factor(self, src: str, dst: str):
         k = (src, dst)
@@ -250,6 +345,22 @@ class Expect:
         for ea, ee in zip(d["EA"], d["_EE"]):
             self.nuclides.setdefault(ee, []).append(ea)
         self.all_labels_lower = {x.lower() for x in d["EA"]} | {n.lower() for n in d["name"]}
+        self._a0 = {}
+
+    def bohr_radius(self, year: int) -> Fraction:
+        """the oracle's own reading of the 'bohr radius' row of the context's CODATA data file (metres, exact decimal)"""
+        if year not in self._a0:
+            import gen_codata
+
+            blob = gen_codata.literal_assign(common.REPO / f"qcelemental/data/nist_{year}_codata.py", f"nist_{year}_codata")
+            self._a0[year] = Fraction(Decimal(blob["constants"]["bohr radius"]["value"]))
+        return self._a0[year]
+
+    def exact_factor(self, year: int, src: str, dst: str) -> Fraction:
+        """exact factor between two of the five length units: ratio of their lengths in metres"""
+        mag = {"bohr": self.bohr_radius(year), "angstrom": Fraction(1, 10**10), "pm": Fraction(1, 10**12),
+               "nm": Fraction(1, 10**9), "m": Fraction(1)}
+        return mag[src] / mag[dst]
 
     def variants(self, setname, sym):
         return {k: v for k, v in self.rows[setname].items() if k.startswith(sym + "_")}
@@ -346,6 +457,14 @@ def oracle_get(impl: Impl, ex: Expect, case, res):
         exact = Fraction(dec) * scale
         if abs(Fraction(r) - exact) > abs(exact) * Fraction(1, 10**14):
             bad.append(("oracle:unit_scale", f"{text} angstrom in {dst} should be {float(exact)!r}, got {r!r}"))
+    # the same clause at full strength: the exact factor comes from the context's CODATA data file (bohr radius) and exact
+    # decimal scales; a factor double within 2^-50 of it, float(Decimal) and one multiplication leave < 11u (proved:
+    # Radii.impl_factor_value_accuracy)
+    if native in UNITS and dst in UNITS:
+        exact2 = Fraction(dec) * ex.exact_factor(impl.year, native, dst)
+        if abs(Fraction(r) - exact2) > abs(exact2) * BOUND_DEC:
+            bad.append(("oracle:unit_scale_exact", f"{text} {native} in {dst} is exactly {frac_s(exact2)} ~ {float(exact2)!r}; got {r!r}, "
+                        f"off by more than the factor tolerance 2^-50 plus two roundings allow"))
     return bad
 
 
@@ -461,47 +580,245 @@ def tou_payload_line(data) -> str:
     return canon_payload(data)
 
 
-def check_tou(impl: Impl, out: Outcome, case, model_line):
+def tou_expected(f: float, snap) -> str:
+    """canonical `factor times payload, correctly rounded` from a SNAPSHOT of the payload"""
+    if isinstance(snap, Decimal):
+        return "ok value " + fl_s(fmul_exact(f, float(snap)))
+    if isinstance(snap, np.ndarray):
+        return "ok values " + ",".join(fl_s(fmul_exact(f, float(v))) for v in snap)
+    return "ok value " + fl_s(fmul_exact(f, float(snap)))
+
+
+def parse_values(line: str):
+    """'ok value p/q' / 'ok values p/q,...' -> list of Fractions (None if the line is something else)"""
+    if line is None:
+        return None
+    if line.startswith("ok value "):
+        return [Fraction(line[len("ok value "):])]
+    if line.startswith("ok values "):
+        return [Fraction(t) for t in line[len("ok values "):].split(",")]
+    return None
+
+
+def full_model_agrees(ci: str, full_line: str, f, q: Fraction) -> str:
+    """Compare an implementation answer with the DERIVED-factor model's.  Returns '' (agree), 'exact' or 'tolerance'
+    (which comparison failed).  Where the implementation's double IS the correctly rounded exact factor the two must
+    be identical (Radii.getFull_eq_of_factor_eq); otherwise both are within the proved bounds of the same exact
+    product, so they differ by at most 2^-49 relative."""
+    if full_line == ci:
+        return ""
+    if f is None or q is None:
+        return "exact"
+    fm = q.numerator / q.denominator  # CPython int/int true division is correctly rounded: rnd64(q)
+    if Fraction(f) == Fraction(fm):
+        return "exact"
+    a, b = parse_values(ci), parse_values(full_line)
+    if a is None or b is None or len(a) != len(b) or ci.split(" ")[1] != full_line.split(" ")[1]:
+        return "tolerance"
+    for x, y in zip(a, b):
+        if abs(x - y) > abs(y) * Fraction(1, 2**49):
+            return "tolerance"
+    return ""
+
+
+TOU_FOLLOW_UP = 4  # further to_units calls made on the same Datum after the first one
+
+
+def check_tou(impl: Impl, out: Outcome, case, model_line, full_line=None, ex: Expect = None):
     u1, u2, data = case["u1"], case["u2"], case["data"]
     out.evaluations += 1
     out.count("D:to_units:" + case["kind"])
     rep = {"op": "tou", "u1": u1, "u2": u2, "kind": case["kind"],
            "data": str(data) if isinstance(data, Decimal) else (data.tolist() if isinstance(data, np.ndarray) else float(data).hex())}
-    f = impl.factor(u1, u2 if u2 is not None else u1)
+    # what the payload is BEFORE anything is called (the Datum stores an ndarray by reference)
+    snap = data.copy() if isinstance(data, np.ndarray) else data
+    snap_key = canon_payload(snap)
+    dst = u2 if u2 is not None else u1
+    f = impl.factor(u1, dst)
+    d = None
     try:
         d = impl.qcel.Datum("probe", u1, data)
         res = ("ok", d.to_units(u2))
     except Exception as e:  # noqa
         res = ("err", err_class(e))
     ci = canon(res)
-    out.nontrivial(("tou", u1, u2, canon_payload(data)))
-    out.sample({"op": "to_units", "from": u1, "to": u2, "data": rep["data"], "impl": ci, "model": model_line}, limit=8)
+    out.nontrivial(("tou", u1, u2, canon_payload(snap)))
+    out.sample({"op": "to_units", "from": u1, "to": u2, "data": rep["data"], "impl": ci, "model": model_line, "model (derived factor)": full_line}, limit=8)
     # oracle
     if res[0] != "ok" or f is None:
         out.violations.append(Finding("oracle:to_units", rep, observed=ci, detail="to_units raised on a length-unit pair"))
     else:
         if u2 is None and Fraction(f) != 1:
             out.violations.append(Finding("oracle:to_units", rep, observed=repr(f), detail="factor of a unit to itself is not 1"))
-        if isinstance(data, Decimal):
-            x = float(data)
-            if not nearest_double_ok(x, Fraction(data)):
+        if isinstance(snap, Decimal):
+            x = float(snap)
+            if not nearest_double_ok(x, Fraction(snap)):
                 out.violations.append(Finding("oracle:float_of_decimal", rep, observed=repr(x), detail="float(Decimal) is not the nearest double"))
-            want = "ok value " + fl_s(fmul_exact(f, x))
-        elif isinstance(data, np.ndarray):
-            want = "ok values " + ",".join(fl_s(fmul_exact(f, float(v))) for v in data)
-        else:
-            want = "ok value " + fl_s(fmul_exact(f, float(data)))
+        want = tou_expected(f, snap)
         if ci != want:
             out.violations.append(Finding("oracle:to_units", rep, observed=ci, expected=want, detail=f"to_units is not factor({u1}->{u2})={f!r} times the data, correctly rounded"))
-        if isinstance(res[1], np.ndarray) != isinstance(data, np.ndarray):
+        if isinstance(res[1], np.ndarray) != isinstance(snap, np.ndarray):
             out.violations.append(Finding("oracle:to_units", rep, observed=ci, detail="payload shape changed"))
+        # linear in the payload with the EXACT factor of the context (bohr radius of its CODATA file, decimal scales):
+        # each element within the proved bound of q * x  (Radii.to_units_accuracy / to_units_decimal_accuracy)
+        if ex is not None:
+            q = ex.exact_factor(impl.year, u1, dst)
+            got = parse_values(ci)
+            xs = [Fraction(snap)] if isinstance(snap, Decimal) else ([Fraction(float(v)) for v in snap] if isinstance(snap, np.ndarray) else [Fraction(float(snap))])
+            bound = BOUND_DEC if isinstance(snap, Decimal) else BOUND_FLT
+            if got is not None and len(got) == len(xs):
+                for g, xq in zip(got, xs):
+                    if abs(g - q * xq) > abs(q * xq) * bound:
+                        out.violations.append(Finding("oracle:to_units_exact", rep, observed=ci, expected=frac_s(q * xq),
+                                                      detail=f"to_units({u2!r}) of a payload in {u1} is not the exact factor {frac_s(q)} times the payload within the factor tolerance 2^-50 plus the roundings of the product"))
+                        break
+    # the stored Datum is not modified: repeated calls on the SAME Datum, payload compared with the snapshot after each
+    if d is not None and res[0] == "ok":
+        bad = tou_sequence(impl, d, u1, u2, snap, snap_key)
+        out.count("D:to_units follow-up calls", TOU_FOLLOW_UP + (2 if isinstance(snap, np.ndarray) else 0))
+        if bad:
+            out.violations.append(Finding("oracle:to_units_payload", rep, observed=bad[0], expected=snap_key, detail=bad[1]))
     if model_line is not None and model_line != ci:
         out.mismatches.append(Finding("mismatch", rep, observed=ci, expected=model_line, detail="Datum.to_units: implementation vs Lean model"))
+    if full_line is not None and ex is not None:
+        out.count("T:to_units vs derived-factor model")
+        how = full_model_agrees(ci, full_line, f, ex.exact_factor(impl.year, u1, dst))
+        if how:
+            out.mismatches.append(Finding("mismatch", dict(rep, model="derived factor"), observed=ci, expected=full_line,
+                                          detail=f"Datum.to_units: implementation vs Lean model with the factor derived from the CODATA set ({how} comparison)"))
+        elif full_line != ci:
+            out.count("T:tolerance path (implementation's double is not the correctly rounded factor)")
+
+
+def tou_sequence(impl: Impl, d, u1, u2, snap, snap_key):
+    """After the first to_units(u2): payload unchanged?  Then call to_units again — same target, another unit, same
+    target, default — each answer must be what a fresh Datum gives, and the payload must equal the snapshot after
+    every call.  For arrays: modifying a returned array in place must not reach the stored payload.
+    Returns None or (observed, message)."""
+
+    def payload_now():
+        v = d.data
+        return canon_payload(v) if type(v) is type(snap) else "?:" + type(v).__name__
+
+    if payload_now() != snap_key:
+        return (payload_now(), f"the Datum's payload changed during to_units({u2!r})")
+    other = UNITS[(UNITS.index(u1) + 2) % len(UNITS)]
+    for i, target in enumerate([u2, other, u2, None][:TOU_FOLLOW_UP]):
+        f = impl.factor(u1, target if target is not None else u1)
+        try:
+            r = ("ok", d.to_units(target))
+        except Exception as e:  # noqa
+            r = ("err", err_class(e))
+        if f is None or canon(r) != tou_expected(f, snap):
+            return (canon(r), f"call #{i + 2} on the same Datum, to_units({target!r}), does not return what it returns on a fresh Datum "
+                              f"({tou_expected(f, snap) if f is not None else 'a value'})")
+        if payload_now() != snap_key:
+            return (payload_now(), f"the Datum's payload changed during call #{i + 2}, to_units({target!r})")
+    if isinstance(snap, np.ndarray):
+        for target in (u2, None):
+            f = impl.factor(u1, target if target is not None else u1)
+            r = d.to_units(target)
+            if isinstance(r, np.ndarray) and r.flags.writeable:
+                r *= 3.0
+                r += 1.0
+            if payload_now() != snap_key:
+                return (payload_now(), f"modifying the array returned by to_units({target!r}) in place changed the Datum's payload (shared memory)")
+            r2 = ("ok", d.to_units(target))
+            if f is None or canon(r2) != tou_expected(f, snap):
+                return (canon(r2), f"to_units({target!r}) after the caller modified an earlier result in place does not return the converted payload")
+    return None
 
 
 def tou_line(impl: Impl, case) -> str:
     f = impl.factor(case["u1"], case["u2"] if case["u2"] is not None else case["u1"])
     return f"tou {canon_payload(case['data'])} {fl_s(f) if f is not None else 'none'}"
+
+
+def toufull_line(impl: Impl, case) -> str:
+    return f"toufull {impl.year} {xhex(case['u1'])} {xhex(case['u2'])} {canon_payload(case['data'])}"
+
+
+def getfull_line(impl: Impl, case) -> str:
+    arg = case["arg"]
+    a = f"i {arg}" if isinstance(arg, int) else f"s {hexs(arg)}"
+    m = "N" if case["missing"] is None else fl_s(case["missing"])
+    return f"getfull {impl.year} {case['set']} {1 if case['rt'] else 0} {a} {m} {xhex(case['units'])}"
+
+
+def factor_line(impl: Impl, src: str, dst: str) -> str:
+    f = impl.factor(src, dst)
+    return f"factor {impl.year} {xhex(src)} {xhex(dst)} {fl_s(f) if f is not None and math.isfinite(f) else '-'}"
+
+
+def check_factor(impl: Impl, ex: Expect, out: Outcome, src, dst, model_line):
+    """F: constants.conversion_factor(src, dst) itself, against the oracle's exact rational and the Lean model's."""
+    out.evaluations += 1
+    out.count("F:factor")
+    f = impl.factor(src, dst)
+    q = ex.exact_factor(impl.year, src, dst)
+    rep = {"op": "factor", "src": src, "dst": dst}
+    if src != dst:
+        out.nontrivial(("factor", src, dst))
+    out.sample({"op": "conversion_factor", "from": src, "to": dst, "impl": repr(f), "exact": frac_s(q), "model": model_line}, limit=14)
+    within = None
+    if f is None or not isinstance(f, float) or not math.isfinite(f):
+        out.violations.append(Finding("oracle:factor_exact", rep, observed=repr(f), expected=frac_s(q), detail="conversion_factor did not return a finite float for a pair of length units"))
+    else:
+        within = abs(Fraction(f) - q) <= abs(q) * TOL_FACTOR
+        if not within:
+            out.violations.append(Finding("oracle:factor_exact", rep, observed=repr(f), expected=f"{frac_s(q)} ~ {float(q)!r}",
+                                          detail=f"conversion_factor({src!r}, {dst!r}) of the {impl.year} context is not within 2^-50 (relative) of the exact ratio of the two lengths "
+                                                 f"(bohr radius from nist_{impl.year}_codata.py, exact decimal scales)"))
+        elif Fraction(f) != Fraction(q.numerator / q.denominator):
+            out.count("F:double is not the correctly rounded factor (within tolerance)")
+            out.notes.append(f"factor {src}->{dst}: the implementation's double {f!r} is not the correctly rounded exact factor {q.numerator / q.denominator!r} (within the 2^-50 tolerance: pint's float evaluation)")
+    if model_line is not None:
+        fm = q.numerator / q.denominator
+        want = f"ok {frac_s(q)} {fl_s(fm)} " + ("-" if within is None else ("1" if within else "0"))
+        if model_line != want:
+            out.mismatches.append(Finding("mismatch", rep, observed=want, expected=model_line,
+                                          detail="unit factor: the oracle's exact rational / its correctly rounded double / the tolerance verdict on the implementation's double vs the Lean model's (Units.conv over the regenerated CODATA table, rnd64, withinTol)"))
+
+
+def check_b2a_link(impl: Impl, ex: Expect, out: Outcome):
+    """the context's alias `bohr2angstroms` IS the reciprocal of the exact angstrom->bohr factor (exact decimals:
+    bohr radius * 1.E10), and its float attribute is the nearest double of that Decimal"""
+    out.evaluations += 1
+    out.count("F:bohr2angstroms link")
+    q = ex.exact_factor(impl.year, "angstrom", "bohr")
+    rep = {"op": "b2a"}
+    try:
+        b = impl.constants.pc["bohr2angstroms"].data
+        ok = isinstance(b, Decimal) and Fraction(b) * q == 1
+        obs = repr(b)
+    except Exception as e:  # noqa
+        ok, obs, b = False, f"{type(e).__name__}: {e}", None
+    if not ok:
+        out.violations.append(Finding("oracle:bohr2angstroms_link", rep, observed=obs, expected=frac_s(1 / q),
+                                      detail="the context's bohr2angstroms is not exactly (bohr radius of its CODATA file) * 1e10, i.e. not the reciprocal of the exact angstrom->bohr factor"))
+    elif not nearest_double_ok(float(impl.constants.bohr2angstroms), Fraction(b)) or Fraction(float(b)) != Fraction(impl.constants.bohr2angstroms):
+        out.violations.append(Finding("oracle:bohr2angstroms_link", rep, observed=repr(impl.constants.bohr2angstroms), expected=str(b),
+                                      detail="constants.bohr2angstroms is not the nearest double of the context's Decimal"))
+
+
+def check_getfull(impl: Impl, ex: Expect, out: Outcome, tag, case, full_line):
+    """G: the implementation's `get` against the model whose factor is derived in Lean (nothing numeric handed over)."""
+    if full_line is None:
+        return
+    res = impl.get(case["set"], case["arg"], case["rt"], case["units"], case["missing"])
+    ci = canon(res)
+    out.evaluations += 1
+    out.count("G:get vs derived-factor model")
+    native = ex.native[case["set"]]
+    dst = "bohr" if case["units"] is None else case["units"]
+    f = impl.factor(native, dst)
+    q = ex.exact_factor(impl.year, native, dst) if native in UNITS and dst in UNITS else None
+    how = full_model_agrees(ci, full_line, f, q)
+    if how:
+        out.mismatches.append(Finding("mismatch", {"op": "get", **case, "model": "derived factor"}, observed=ci, expected=full_line,
+                                      detail=f"get: implementation vs Lean model with the unit factor derived from the CODATA set ({how} comparison)"))
+    elif full_line != ci:
+        out.count("G:tolerance path (implementation's double is not the correctly rounded factor)")
 
 
 MK = [("float", 2.5), ("int", 3), ("bool", True), ("complex", 1 + 2j), ("ndarray", "np"), ("decimal", Decimal("1.5")),
@@ -1021,8 +1338,15 @@ def run(ctx: Ctx) -> Outcome:
             digest_episode(impl, Outcome(), family, steps, recs, None, shrinker=shrink_now, budget=pre_budget)
     seq_lines = [seq_model_lines(impl, st) for _, st in episodes]
     lines = [get_line(impl, c) for _, c in gets] + [tou_line(impl, c) for c in tous] + [f"mk {k} {1 if n else 0}" for k, _, n in mks] + [f"keys {s}" for s in SETS]
+    # streams with the DERIVED factor (generated after everything else, so the older streams of a seed are unchanged)
+    pairs = [(a, b) for a in UNITS for b in UNITS]
+    sure = [i for i, (tag, _) in enumerate(gets) if tag in ("A:symbol", "B:special label")]
+    rest = [i for i, (tag, _) in enumerate(gets) if tag not in ("A:symbol", "B:special label")]
+    gfull = sorted(sure + ctx.rng.sample(rest, min(len(rest), ctx.scale(1500, 15000))))
+    lines_full = [factor_line(impl, a, b) for a, b in pairs] + [getfull_line(impl, gets[i][1]) for i in gfull] + [toufull_line(impl, c) for c in tous]
     flat = [l for ls in seq_lines for l in ls]
-    model = ctx.run_model(DRIVER, flat + lines) if ctx.model_available else [None] * (len(flat) + len(lines))
+    nall = len(flat) + len(lines) + len(lines_full)
+    model = ctx.run_model(DRIVER, flat + lines + lines_full) if ctx.model_available else [None] * nall
     it = iter(model)
     budget = [SEQ_ITEMISED]
     for (family, steps), recs, ls in zip(episodes, seq_recs, seq_lines):
@@ -1032,12 +1356,21 @@ def run(ctx: Ctx) -> Outcome:
                      f"{sum(1 for _, st in episodes for x in st if x['do'] not in ('get', 'keys'))} non-lookup calls, {len(flat)} checked lookups / key listings")
     for tag, case in gets:
         check_get(impl, ex, out, tag, case, next(it))
-    for case in tous:
-        check_tou(impl, out, case, next(it))
+    tou_models = [next(it) for _ in tous]
     for k, v, n in mks:
         check_mk(impl, out, k, v, n, next(it))
     for s in SETS:
         check_keys(impl, ex, out, s, next(it))
+    # F: the factor itself, all 25 ordered pairs
+    for a, b in pairs:
+        check_factor(impl, ex, out, a, b, next(it))
+    check_b2a_link(impl, ex, out)
+    # G: get against the derived-factor model
+    for i in gfull:
+        check_getfull(impl, ex, out, gets[i][0], gets[i][1], next(it))
+    # D + T: to_units against both models, and the payload before / after repeated calls
+    for case, ml in zip(tous, tou_models):
+        check_tou(impl, out, case, ml, next(it), ex)
     # default unit is bohr: the context's factor agrees with its own bohr2angstroms
     f = impl.factor("angstrom", "bohr")
     out.evaluations += 1
@@ -1076,11 +1409,27 @@ def replay(ctx: Ctx, case) -> Outcome:
             c2["expect"] = ["unknown", None]
         ml2 = ctx.run_model(DRIVER, [get_line(impl, c2)])[0] if ctx.model_available else None
         check_get(impl, ex, out, "replay:other set", c2, ml2)
+        if ctx.model_available:
+            for cc in (c, c2):
+                check_getfull(impl, ex, out, "replay", cc, ctx.run_model(DRIVER, [getfull_line(impl, cc)])[0])
         out.sample({"case": c, "impl": canon(impl.get(c["set"], c["arg"], c["rt"], c["units"], c["missing"])), "model": ml})
     elif op == "tou":
         c = {"u1": case["u1"], "u2": case["u2"], "kind": case["kind"], "data": _decode_data(case)}
-        ml = ctx.run_model(DRIVER, [tou_line(impl, c)])[0] if ctx.model_available else None
-        check_tou(impl, out, c, ml)
+        ml, fl = ctx.run_model(DRIVER, [tou_line(impl, c), toufull_line(impl, c)]) if ctx.model_available else (None, None)
+        check_tou(impl, out, c, ml, fl, ex)
+        # the same payload in the reverse direction (a second, genuine evaluation)
+        if c["u2"] is not None and c["u2"] != c["u1"]:
+            c2 = dict(c, u1=c["u2"], u2=c["u1"], data=_decode_data(case))
+            ml2, fl2 = ctx.run_model(DRIVER, [tou_line(impl, c2), toufull_line(impl, c2)]) if ctx.model_available else (None, None)
+            check_tou(impl, out, c2, ml2, fl2, ex)
+    elif op == "factor":
+        for a, b in ((case["src"], case["dst"]), (case["dst"], case["src"])):
+            ml = ctx.run_model(DRIVER, [factor_line(impl, a, b)])[0] if ctx.model_available else None
+            check_factor(impl, ex, out, a, b, ml)
+    elif op == "b2a":
+        check_b2a_link(impl, ex, out)
+        ml = ctx.run_model(DRIVER, [factor_line(impl, "angstrom", "bohr")])[0] if ctx.model_available else None
+        check_factor(impl, ex, out, "angstrom", "bohr", ml)
     elif op == "mk":
         val = dict(MK)[case["kind"]]
         ml = ctx.run_model(DRIVER, [f"mk {case['kind']} {1 if case['numeric'] else 0}"])[0] if ctx.model_available else None
